@@ -168,7 +168,7 @@ class Gen:
                         tp = tel.get("presence", "required"); exp = tp if (fp is None or fp == tp) else None
                     elif tk == "enum": exp = "constant" if fp == "constant" else "required"
                     elif tk == "set": exp = "required"
-                    else: exp = (fp or "required") if fp in (None, "required") else None
+                    else: exp = fp or "required"   # composite field: the field's own presence attribute is the only statement the XML makes
                     if not (tk == "type" and tel.get("presence") == "constant") and fp != "constant":   # value_type_tag is documented as unavailable for numeric constants; constants of any kind are left out
                         s.same(ct, "typename %s::value_type_tag" % ftr, "%s::schema::types::%s" % (s.ns, tel.get("name")), "value_type_tag == the tag of the field's type")
                 if exp: s.true(ct, "(%s::presence() == ::sbepp::field_presence::%s)" % (ftr, exp), "presence() == %s" % exp)
